@@ -47,7 +47,11 @@ class Sources:
         self.overrides = overrides or {}     # module name -> source text (in-memory canaries)
 
     def mod_path(self, name):
-        base = os.path.join(self.root, *name.split('.'))
+        root = self.root
+        if name.split('.')[0] == 'vlemma':
+            # relational harnesses for lemmas over contracts live next to the verifier, not in the repository
+            root = os.path.dirname(os.path.dirname(os.path.abspath(__file__)))
+        base = os.path.join(root, *name.split('.'))
         if os.path.isfile(base + '.py'):
             return base + '.py'
         if os.path.isfile(os.path.join(base, '__init__.py')):
@@ -74,7 +78,7 @@ class Sources:
         parts = qual.split('.')
         for k in range(len(parts), 0, -1):
             mname = '.'.join(parts[:k])
-            if mname.split('.')[0] != 'bycycle':
+            if mname.split('.')[0] not in ('bycycle', 'vlemma'):
                 break
             mi = self.module(mname)
             if mi is not None:
